@@ -284,6 +284,7 @@ enum
   P_HAS,
   P_REMOVE,
   P_RESET,
+  P_ALIAS,  // the name argument is a reference to a stored parameter's own name (removeParam(p->name), setParam(p->name, v))
   P_NKINDS
 };
 // value types: 0 int, 1 float, 2 bool, 3 std::string
@@ -489,6 +490,26 @@ static void po_case(const POCase &pc, pbt::Ctx &ctx)
       for (auto &p : model)
         p.query = false;
       break;
+    case P_ALIAS: {
+      if (model.empty())
+        break;
+      size_t i = (size_t)op.b % model.size();
+      const std::string &stored = (*(po.params_begin() + (long)i))->name;
+      PBT_ASSERT(po.hasParam(stored));
+      if (op.c % 2) {
+        po.removeParam(stored);
+        if (i + 1 < model.size())
+          removedNonLast = true;
+        model.erase(model.begin() + (long)i);
+      } else {
+        po.setParam<int>(stored, (int)v);
+        if (model[i].type != 0)
+          typeChange = true;
+        model[i].type = 0;
+        model[i].val = v;
+      }
+      break;
+    }
     }
     // compare complete state: presence, order, stored type+value, query flags
     size_t i = 0;
